@@ -154,7 +154,7 @@ def handleC15 (j : Json) : Except String Verdict := do
             let kind := (path.getLast?.map (·.1)).getD ""
             return .specfalse ("board-differs:" ++ kind ++ cls)
               (s!"{pathStr path}: " ++ ((boardDiff "board" (.mk "" "" b.objs b.edges []) (.mk "" "" r.objs r.edges [])).getD ""))
-        | some _, some other => return .specfalse "board-reference-fails" s!"{pathStr path}: reference program: {other.brief}"
+        | some _, some other => return .specfalse ("board-reference-fails" ++ cls) s!"{pathStr path}: reference program: {other.brief}"
         | none, _ => return .specfalse "board-missing" s!"{pathStr path} not in the compiled graph"
         | _, none => return .bad "no reference program for a listed board"
       -- (c) no leak: boards whose reference does not mention the victim's body are unchanged in p2
